@@ -20,6 +20,40 @@ def tokens_of(parts):
     return ' '.join(out)
 
 
+# hand-written requests whose generated code embeds user-written string / byte-string literals containing blanks after
+# `;`, `{`, `}` (the S-expression encoding splits token text at blanks, so these go to the real macro only): (traits, item)
+LITERAL_ITEMS = [
+    (['Default'], 'struct X { #[default("a; b")] s: String, #[default("{ x } y")] t: String, u: u8 }'),
+    (['Default', 'Clone'], 'struct X(#[default("};  {  ;")] String, #[default(*b"; x} ")] [u8; 5]);'),
+    (['Default'], '#[default(X { s: "} ; { ".into(), n: 1 })] struct X { s: String, n: u8 }'),
+    (['Default', 'Debug'], 'enum E { A, #[default] B { #[default("a; b { c } d")] s: String } }'),
+    (['PartialEq', 'Hash'], 'struct X { #[partial_eq(key = $.trim_start_matches("; "))] #[hash(key = $.trim_end_matches("} "))] s: String }'),
+    (['Ord', 'PartialOrd', 'Eq', 'PartialEq'], 'struct X { #[ord(by = |a, b| { let _ = "{ ; } "; a.cmp(b) })] s: u8, t: u8 }'),
+    (['PartialOrd', 'PartialEq'], 'enum E { A(#[partial_ord(key = ($, "x; y"))] u8), B }'),
+    (['Hash'], 'struct X<T> { #[hash(key = ($.to_string(), "{ }", \'{\', \';\'))] s: T }'),
+]
+
+
+def literal_inputs():
+    out = []
+    gid = 2 * 10 ** 6
+    for traits, item in LITERAL_ITEMS:
+        for mode in ('A', 'D'):
+            gid += 1
+            roles = [('plain', traits, False)] + \
+                    [('dump%d' % i, [t + '(dump)' if j == i else t for j, t in enumerate(traits)], False) for i in range(len(traits))] + \
+                    [('shared', traits, True)]
+            for role, tl, shared in roles:
+                args = ', '.join(tl) + (', dump' if shared else '')
+                if mode == 'A':
+                    a, it = args, item
+                else:
+                    # the derive entry point: #[derive_ex(..)] goes after the outer attributes written on the item
+                    a, it = '', '#[derive_ex(%s)] %s' % (args, item)
+                out.append((mode, a, it, dict(gid=gid, role=role, idx=0, traits=traits, features=('literal',), nontrivial=True)))
+    return out
+
+
 class C19(Prop):
     pid = 'C19'
     tag = 'all parts (DUMP payloads are re-lexed by the expander)'
@@ -107,7 +141,8 @@ class C19(Prop):
     def oracle(self, tier, rng, suspicious):
         results = self.l1_results or R.run_cases(self.cases(tier, rng))
         groups = {}
-        for r in results:
+        lit = R.run_raw(literal_inputs())
+        for r in list(results) + lit:
             groups.setdefault(r.meta['gid'], {})[r.meta['role']] = r
         failures, validated, samples, nontrivial = [], 0, [], 0
         for gid, g in groups.items():
@@ -157,8 +192,8 @@ class C19(Prop):
                     nontrivial += 1
                     if len(samples) < 2:
                         samples.append(dict(input=r.input_text()[:300], payload=[p[1][:200] for p in got if p[0] == 'DUMP'][:1]))
-        return dict(evaluations=len(results), validated=validated, failures=failures, samples=samples,
-                    groups=len(groups), dumps_with_payload=nontrivial)
+        return dict(evaluations=len(results) + len(lit), validated=validated, failures=failures, samples=samples,
+                    groups=len(groups), dumps_with_payload=nontrivial, literal_requests=len(lit))
 
 
 PROP = C19()
